@@ -180,6 +180,14 @@ def run(ctx):
             for ic in a.order:
                 if ic.op == 'icmp' and ic.pred in ('slt', 'ult') and ic.block.id == lpz['header'] and const_int(ic.ops[1]) == alen:
                     okb = True
+        if not (okz and okb):
+            # the other spelling: memset(s->info.<name>, 0, sizeof(s->info.<name>))
+            alen = (m.struct_field('dr_dag_node_info', name) or {}).get('nelem')
+            for mc in a.calls():
+                if (mc.callee or '').startswith('llvm.memset') and a.ap(mc.args[0]).fields[-1:] == [INFO + name] and \
+                        same_value(a, a.ap(mc.args[0]).root, s) and const_int(mc.args[1]) == 0 and alen and const_int(mc.args[2]) == 8 * alen and \
+                        all(mc not in a.reachable_from(st) for st in adds) and bool(adds):
+                    okz = okb = True
         ctx.ob('C18.3', '%s zeroed over its whole length before accumulating' % name, okz and okb,
                'every counter of the summary starts at 0', loc=(z[0].loc if z else a.loc))
     ctx.floor('C18.3', 16)
